@@ -21,6 +21,9 @@ import (
 // ErrDelegationNotFound) + FAILS (the loader fails with another error, e.g. an I/O error).
 const c01Missing = 36
 const c01Fails = 37
+const c01Nil = 38    // the loader answers (nil, nil): no token and no error
+const c01Panics = 39 // the loader panics
+const c01Last = c01Panics
 
 var errLoaderIO = fmt.Errorf("harness: injected loader failure: %w", io.ErrUnexpectedEOF)
 
@@ -32,7 +35,7 @@ func c01ElemOf(e int) c01Elem { return c01Elem{iss: e / 12, aud: (e / 4) % 3, su
 // by a harness loader, or sealed tokens decoded again and served by a container.Reader.
 type c01Univ struct {
 	toks    [36]*delegation.Token
-	cids    [38]cid.Cid // cids[36] is a CID no loader knows, cids[37] one for which the loader fails
+	cids    [40]cid.Cid // cids[36] is a CID no loader knows, cids[37] one for which the loader fails, [38] answers (nil, nil), [39] panics
 	loader  delegation.Loader
 	sealInv bool // the invocation is sealed with the invoker's key and decoded before the check
 }
@@ -57,8 +60,9 @@ func c01SealedInit() {
 			w.AddSealed(c, data)
 			u.cids[e] = c
 		}
-		u.cids[36] = cidPool[36]
-		u.cids[37] = cidPool[37]
+		for e := 36; e <= c01Last; e++ {
+			u.cids[e] = cidPool[e]
+		}
 		car, err := w.ToCar()
 		if err != nil {
 			panic(err)
@@ -74,19 +78,27 @@ func c01SealedInit() {
 			}
 			u.toks[e] = t
 		}
-		u.loader = failingLoader{rd, cidPool[37]}
+		u.loader = failingLoader{rd, cidPool[37], cidPool[38], cidPool[39]}
 	})
 }
 
 // failingLoader answers an I/O error for one CID and delegates everything else.
 type failingLoader struct {
 	delegation.Loader
-	fails cid.Cid
+	fails  cid.Cid
+	nils   cid.Cid // answered with (nil, nil)
+	panics cid.Cid
 }
 
 func (l failingLoader) GetDelegation(c cid.Cid) (*delegation.Token, error) {
 	if c == l.fails {
 		return nil, errLoaderIO
+	}
+	if l.nils.Defined() && c == l.nils {
+		return nil, nil
+	}
+	if l.panics.Defined() && c == l.panics {
+		panic("harness: injected loader panic")
 	}
 	return l.Loader.GetDelegation(c)
 }
@@ -126,10 +138,10 @@ func c01Init() {
 		c01Universe.toks[e] = mustDlg(el.iss, el.aud, sub, "/a", nil)
 		m[cidPool[e]] = c01Universe.toks[e]
 	}
-	for e := 0; e <= 37; e++ {
+	for e := 0; e <= c01Last; e++ {
 		c01Universe.cids[e] = cidPool[e]
 	}
-	c01Universe.loader = failingLoader{&posLoader{byCid: m}, cidPool[37]}
+	c01Universe.loader = failingLoader{&posLoader{byCid: m}, cidPool[37], cidPool[38], cidPool[39]}
 }
 
 type c01Case struct {
@@ -234,7 +246,7 @@ func c01Eval(ctx *engine.Ctx, u *c01Univ, dir string, iss, sub int, chain []int,
 			opts = append(opts, invocation.WithAudience(prin(aud)))
 		}
 		inv := u.mkInv(iss, sub, prf, opts)
-		e1, e2 := bothVerdicts(inv, u.loader)
+		e1, e2 := bothVerdictsGuarded(inv, u.loader)
 		ctx.Eval(2)
 		l1, l2 := errLabel(e1), errLabel(e2)
 		ctx.Outcome(l1)
@@ -303,6 +315,14 @@ func c01Describe(chain []int) string {
 			parts = append(parts, "LOADER-ERROR")
 			continue
 		}
+		if e == c01Nil {
+			parts = append(parts, "LOADER-ANSWERS-NIL-NIL")
+			continue
+		}
+		if e == c01Panics {
+			parts = append(parts, "LOADER-PANICS")
+			continue
+		}
 		el := c01ElemOf(e)
 		s := "-"
 		if el.sub < 3 {
@@ -323,7 +343,7 @@ func c01Run(u *c01Univ, dir string) func(ctx *engine.Ctx, c any) {
 			if left == 0 {
 				return
 			}
-			for e := 0; e <= c01Fails; e++ {
+			for e := 0; e <= c01Last; e++ {
 				ctx.Trans(1)
 				rec(append(chain, e), left-1)
 			}
@@ -338,9 +358,9 @@ func c01Run(u *c01Univ, dir string) func(ctx *engine.Ctx, c any) {
 func c01Sub(name, dir string, qn, tn int) *engine.Sub {
 	return &engine.Sub{
 		Name: name,
-		Rule: "explicit-state search: state = (invoker, subject, proof list over 36 delegation shapes + MISSING), transition = append one element (MISSING = the loader answers not-found, LOADER-ERROR = it fails with an I/O error); the proof slices of all states of a case share one caller-owned array that is refilled in place; every state runs ExecutionAllowed and ExecutionAllowedWithArgsHook for audience in {none,p0,p1,p2}; non-trivial = states violating at most one rule kind",
+		Rule: "explicit-state search: state = (invoker, subject, proof list over 36 delegation shapes + MISSING), transition = append one element (MISSING = the loader answers not-found, LOADER-ERROR = it fails with an I/O error, NIL-NIL = it returns neither a token nor an error, PANICS = it panics: a panic that reaches the caller is not a verdict, 'allowed' would be); the proof slices of all states of a case share one caller-owned array that is refilled in place; every state runs ExecutionAllowed and ExecutionAllowedWithArgsHook for audience in {none,p0,p1,p2}; non-trivial = states violating at most one rule kind",
 		Bound: func(t string) string {
-			return fmt.Sprintf("3 principals, proof lists of length 0..%d over 38 elements, 9 (invoker,subject) pairs x 4 audiences x 2 APIs", tierN(t, qn, tn))
+			return fmt.Sprintf("3 principals, proof lists of length 0..%d over 40 elements, 9 (invoker,subject) pairs x 4 audiences x 2 APIs", tierN(t, qn, tn))
 		},
 		Setup: func(string) error { c01Init(); return nil },
 		Gen: func(tier string, emit func(any) bool) {
@@ -357,7 +377,7 @@ func c01Sub(name, dir string, qn, tn int) *engine.Sub {
 			}
 			for iss := 0; iss < 3; iss++ {
 				for sub := 0; sub < 3; sub++ {
-					for a := 0; a <= c01Fails; a++ {
+					for a := 0; a <= c01Last; a++ {
 						if n == 1 {
 							if !emit(&c01Case{Iss: iss, Sub: sub, Chain: []int{a}}) {
 								return
@@ -367,7 +387,7 @@ func c01Sub(name, dir string, qn, tn int) *engine.Sub {
 						if !emit(&c01Case{Iss: iss, Sub: sub, Chain: []int{a}}) {
 							return
 						}
-						for b := 0; b <= c01Fails; b++ {
+						for b := 0; b <= c01Last; b++ {
 							if !emit(&c01Case{Iss: iss, Sub: sub, Chain: []int{a, b}, Expand: n - 2}) {
 								return
 							}
@@ -396,7 +416,7 @@ func C01() *engine.Check {
 	return &engine.Check{
 		Property: "C01",
 		Level:    "model_checking",
-		Subs:     []*engine.Sub{c01Sub("principal-alignment", "sound", 3, 4), c01SealedSub("sealed-tokens-through-container", "sound", 2, 3), c01FormsSub(), c01CollideSub(), longChainSub("C01")},
+		Subs:     []*engine.Sub{c01Sub("principal-alignment", "sound", 3, 4), c01SealedSub("sealed-tokens-through-container", "sound", 2, 3), c01FormsSub(), c01CollideSub(), clockSub("C01"), longChainSub("C01")},
 		Assumptions: []string{
 			"three distinct Ed25519 principals; DIDs are used by the validator only through ==",
 			"principal-alignment: tokens are unsigned in-memory values served by a harness delegation.Loader (signature checking is C06's business); sealed-tokens-through-container: the same universe with every token signed, encoded, carried in a CAR container and decoded again",
